@@ -430,16 +430,33 @@ def rule_checked_conversions(E, R):
     if not h:
         R.cannot(rule, fn, "anchor not found")
     else:
-        ok = False
-        utf = False
-        for m in find_matches(h["body"]):
-            s = strip(m["scrut"])
-            if s.get("k") == "Call" and norm(s.get("callee", "")) == "core::convert::TryFrom::try_from" and s.get("ty", "").startswith("core::result::Result<u32"):
-                err_arm = [a for a in m["arms"] if pat_variant(a["pat"]) == "core::result::Result::Err"]
-                ok = bool(err_arm) and norm(tail(err_arm[0]["body"]).get("callee", "")) == "core::result::Result::Err"
-            if s.get("k") == "Call" and norm(s.get("callee", "")).endswith("string::String::from_utf8"):
-                err_arm = [a for a in m["arms"] if pat_variant(a["pat"]) == "core::result::Result::Err"]
-                utf = bool(err_arm) and norm(tail(err_arm[0]["body"]).get("callee", "")) == "core::result::Result::Err"
+        import sem
+        S = sem.Sem(E, h, inline=False)
+        leaves = {id(strip(x.node)) for x in S.result_leaves()}
+
+        def failure_propagates(call):
+            """the Err of a fallible conversion stays an Err of this function: matched with an Err arm that yields Err, or
+            carried through map / map_err / and_then to a returned value or a `?`"""
+            outer = call
+            for mc in exprs(h["body"], "MethodCall"):
+                root_, ch_ = chain(mc)
+                if root_ is call and all(c_["m"] in ("map", "map_err", "and_then") for c_ in ch_) and len(ch_) > len(chain(outer)[1] if outer is not call else []):
+                    outer = mc
+            if id(outer) in leaves:
+                return True
+            for m_ in exprs(h["body"], "Match"):
+                if sem.is_try(m_) and sem.peel(sem.try_inner(m_)) is outer:
+                    return True
+                if not sem.is_try(m_) and strip(m_["scrut"]) is outer:
+                    err_arm = [a_ for a_ in m_["arms"] if pat_variant(a_["pat"]) == "core::result::Result::Err"]
+                    return bool(err_arm) and (norm(tail(err_arm[0]["body"]).get("callee", "")) == "core::result::Result::Err" or
+                                              bool(explicit_err_returns(err_arm[0]["body"])))
+            return False
+        conv_u32 = [c for c in exprs(h["body"], "Call") if norm(c.get("callee", "")) == "core::convert::TryFrom::try_from" and
+                    c.get("ty", "").startswith("core::result::Result<u32")]
+        conv_utf = [c for c in exprs(h["body"], "Call") if norm(c.get("callee", "")).endswith("string::String::from_utf8")]
+        ok = len(conv_u32) == 1 and failure_propagates(conv_u32[0])
+        utf = len(conv_utf) == 1 and failure_propagates(conv_utf[0])
         R.check(ok, rule, fn, "array index converted with u32::try_from, out-of-range -> error", where=h["span"])
         R.check(utf, rule, fn, "map key converted with String::from_utf8, invalid UTF-8 -> error", where=h["span"])
         unchecked = list(calls(h["body"], r"from_utf8_unchecked|from_utf8_lossy"))
